@@ -664,9 +664,9 @@ where
         // during the current revision and thus obtained an `&` reference to those fields
         // that is still live.
 
+        // SAFETY: `updated_at` is never exclusively borrowed, so borrowing it is sound
+        let last_updated_at = unsafe { (*data_raw).updated_at.load() };
         {
-            // SAFETY: `updated_at` is never exclusively borrowed, so borrowing it is sound
-            let last_updated_at = unsafe { (*data_raw).updated_at.load() };
             assert!(
                 last_updated_at.is_some(),
                 "two concurrent writers to {id:?}, should not be possible"
@@ -701,6 +701,32 @@ where
                 );
             }
         }
+
+        // Updating the fields runs user code (`PartialEq`/`Hash` implementations of the fields and,
+        // when the identity changed, the event callback) while the write lock is held. If that
+        // unwinds, release the write lock again by restoring the revision we observed when we
+        // acquired it; otherwise `updated_at` stays `None` forever and every later attempt to
+        // re-create this struct panics with "two concurrent writers". No reference to the fields
+        // can exist at this point (the struct was not yet read in this revision), and a retry
+        // compares and updates the fields again.
+        struct UnlockOnUnwind<'a> {
+            updated_at: &'a OptionalAtomicRevision,
+            previous: Option<Revision>,
+        }
+
+        impl Drop for UnlockOnUnwind<'_> {
+            fn drop(&mut self) {
+                if crate::sync::thread::panicking() {
+                    self.updated_at.swap(self.previous);
+                }
+            }
+        }
+
+        let _unlock_on_unwind = UnlockOnUnwind {
+            // SAFETY: `updated_at` is never exclusively borrowed, so borrowing it is sound
+            updated_at: unsafe { &(*data_raw).updated_at },
+            previous: last_updated_at,
+        };
 
         // SAFETY: We have claimed mutable access by swapping `None` into
         // `updated_at`, so the retained fields are exclusively borrowed.
